@@ -138,7 +138,7 @@ Definition s_term (i : N) (a : alog) : err * N :=
 Definition s_csnap (i : N) (v : option (list N)) (d : N) (a : alog) : err * alog :=
   if i <? a_first a then (SnapOutOfDate, a)
   else match lookup i (a_ents a) with
-       | None => (Unavailable, a)
+       | None => (match a_ents a with [] => Compacted | _ => Unavailable end, a)   (* an empty store says 'compacted' *)
        | Some e => (Ok, mkalog (a_ents a) (store_snap (Some (mksnap i (e_term e) v d)) (a_meta a)))
        end.
 
@@ -167,7 +167,7 @@ Definition step_spec (o : sop) (choice : N) (a : alog) : alog * result :=
   | Term i => let '(e, t) := s_term i a in (a, res_of a e [] t None)
   | CreateSnap i v d => let '(e, a') := s_csnap i v d a in (a', res_of a' e [] 0 None)
   | DeleteBefore i =>
-      if i <? a_first a then (a, res_of a OtherErr [] 0 None)
+      if (i <? a_first a) || (match a_ents a with [] => true | _ => false end) then (a, res_of a OtherErr [] 0 None)
       else let a' := mkalog (drop_below choice (a_ents a)) (a_meta a) in (a', res_of a' Ok [] 0 None)
   | Reopen => let a' := mkalog (drop_below choice (a_ents a)) (a_meta a) in (a', res_of a' Ok [] 0 None)
   | GetMeta => (a, res_of a Ok [] 0 (Some (a_meta a)))
